@@ -127,6 +127,20 @@ fn convert(entry: u32, input: &str, st: &Settings, ow: f32, oh: f32) -> String {
             node.render(&mut buffer).expect("must render");
             buffer
         }
+        9 => {
+            // the two step path with fragments the caller zoomed before handing them back (`ow` = zoom factor,
+            // FragmentSpan::scale is public): the scale setting must still multiply every length
+            let zoom = if ow > 0.0 { ow } else { 1.0 };
+            let cb = svgbob::CellBuffer::from(input);
+            let (_, w, h): (svgbob::Node<()>, f32, f32) = cb.get_node_with_size(st);
+            let (fragments, _rejects) = cb.get_fragment_spans();
+            let zoomed = fragments.into_iter().map(|f| f.scale(zoom)).collect();
+            let node: svgbob::Node<()> =
+                svgbob::CellBuffer::fragments_to_node(zoomed, String::new(), st, w * zoom, h * zoom);
+            let mut buffer = String::new();
+            node.render(&mut buffer).expect("must render");
+            buffer
+        }
         6 => {
             // a CellBuffer that was converted once, then edited through its public map interface so that it
             // holds the cells of another document (input = first "\u{1e}" second), then converted again:
